@@ -54,7 +54,21 @@ thread_local! {
     static IN_SHIM: std::cell::Cell<bool> = const { std::cell::Cell::new(false) };
 }
 
+thread_local! {
+    /// A harness thread that carries the worker's thread NAME on purpose (a store dropped
+    /// "inside another store's flush callback" runs on a thread with that name) is still a
+    /// caller thread for logging and gating.
+    static ROLE_OVERRIDE: std::cell::Cell<Option<&'static str>> = const { std::cell::Cell::new(None) };
+}
+
+pub fn set_role_override(r: &'static str) {
+    ROLE_OVERRIDE.with(|c| c.set(Some(r)));
+}
+
 fn role() -> &'static str {
+    if let Some(r) = ROLE_OVERRIDE.with(|c| c.get()) {
+        return r;
+    }
     let t = std::thread::current();
     match t.name() {
         Some("raft_log_wal_flush_worker") => "w",
